@@ -29,6 +29,11 @@ deriving DecidableEq, Repr
 def noisePeriodOf (d sh : Nat) : Nat :=
   if (d * 16) % 4294967296 = 0 then (8 <<< sh) % 4294967296
   else (((d * 16) % 4294967296) <<< sh) % 4294967296
+/-- compiled code of `noisePeriodOf` uses the constant `two32`; the definition is unchanged -/
+def noisePeriodFast (d sh : Nat) : Nat :=
+  if (d * 16) % two32 = 0 then (8 <<< sh) % two32 else (((d * 16) % two32) <<< sh) % two32
+@[csimp] theorem noisePeriodOf_impl : @noisePeriodOf = @noisePeriodFast := by
+  funext d sh; unfold noisePeriodOf noisePeriodFast two32; rfl
 
 /-- one LFSR step exactly as in `tickTimer` (uint16 register) -/
 def lfsrStep (width : Nat) (l : Nat) : Nat :=
